@@ -39,7 +39,9 @@ Definition strings_from_words (ws:list word) : pyval :=
   if Parser.is_plain_none ws then VNone
   else if Parser.is_plain_auto ws then VAuto
   else VList (map (fun w => VStr (wv w)) ws).
-Definition string_word (s:str) : word := if Parser.is_ident s then uw s else qw s.
+(* unquoted only for a standard identifier that is not spelled none / auto (value.lower() not in ("none", "auto")) *)
+Definition none_or_auto (s:str) : bool := eqs (lowers s) (s_ "none") || eqs (lowers s) (s_ "auto").
+Definition string_word (s:str) : word := if Parser.is_ident s && negb (none_or_auto s) then uw s else qw s.
 Definition strings_item (x:pyval) : res word :=
   match x with
   | VStr s => Ok (string_word s)
